@@ -526,6 +526,19 @@ func (db *MultiBucketBackend) deleteObjectLocked(bucketName, objectName string) 
 		return err
 	}
 
+	// Directories only exist to hold objects: remove the parents this delete
+	// left empty (never the bucket itself), otherwise they keep the bucket
+	// "not empty" forever and show up as common prefixes of keys that are gone.
+	for dir := path.Dir(fullPath); strings.HasPrefix(dir, bucketName+"/"); dir = path.Dir(dir) {
+		entries, err := afero.ReadDir(db.bucketFs, filepath.FromSlash(dir))
+		if err != nil || len(entries) > 0 {
+			break
+		}
+		if err := db.bucketFs.Remove(filepath.FromSlash(dir)); err != nil {
+			break
+		}
+	}
+
 	return nil
 }
 
